@@ -35,13 +35,15 @@ Dirs == {"tx", "rx"}
 VARIABLES l,     \* next trace line to consume
           scn,   \* current scenario
           cfg,   \* cfg[dir] = [rpm, burst, relax, maxmsg]
-          q,     \* q[dir]: virtual queue, bytes
+          q,     \* q[dir]: virtual queue, bytes - the statement's literal bound
+          qr,    \* qr[dir]: the same queue, but every re-activation of the user ("activate") forgives one burst:
+                 \* what is over the bound here is NOT explained by fresh buckets on re-activation (defect D18)
           d,     \* d[dir]: deficit, bytes (0 outside backlogged phases)
           dpre,  \* dpre[dir]: deficit just before the last event of that direction paid in
           last,  \* last[dir]: time of the last event of that direction, ms
           bl,    \* bl[dir]: inside a backlogged phase
           cur    \* direction of the last event (diagnosis)
-tvars == <<l, scn, cfg, q, d, dpre, last, bl, cur>>
+tvars == <<l, scn, cfg, q, qr, d, dpre, last, bl, cur>>
 
 Ev == Trace[l]
 IsEvent(e) == l <= Len(Trace) /\ Ev.ev = e /\ l' = l + 1
@@ -50,23 +52,31 @@ Zero == [x \in Dirs |-> 0]
 
 TInit == /\ l = 1 /\ scn = 0
          /\ cfg = [x \in Dirs |-> [rpm |-> 0, burst |-> 0, relax |-> 0, maxmsg |-> 0]]
-         /\ q = Zero /\ d = Zero /\ dpre = Zero /\ last = Zero
+         /\ q = Zero /\ qr = Zero /\ d = Zero /\ dpre = Zero /\ last = Zero
          /\ bl = [x \in Dirs |-> FALSE] /\ cur = "-"
          /\ TLCSet(1, 1)
 
 TReset == /\ IsEvent("reset")
           /\ scn' = Ev.scn
           /\ cfg' = [x \in Dirs |-> IF x = "tx" THEN Ev.tx ELSE Ev.rx]
-          /\ q' = Zero /\ d' = Zero /\ dpre' = Zero /\ last' = Zero   \* the buckets are created full at t = 0
+          /\ q' = Zero /\ qr' = Zero /\ d' = Zero /\ dpre' = Zero /\ last' = Zero   \* the buckets are created full at t = 0
           /\ bl' = [x \in Dirs |-> FALSE] /\ cur' = "-"
 
 \* rate * dt for an event of direction x at time t (events of one direction are in time order)
 Flow(x, t) == cfg[x].rpm * (t - last[x])
 
+Bound(x) == cfg[x].burst + (cfg[x].burst \div 100) + cfg[x].relax
+\* first time in a scenario that the literal bound is exceeded while the forgiving one still holds: printed, not fatal
+LitReport(x, nq) ==
+  IF nq > Bound(x) /\ q[x] <= Bound(x) /\ qr[x] # q[x]
+  THEN PrintT(<<"LITERAL_EXCEEDED", scn, l, x, nq, Bound(x)>>) ELSE TRUE
+
 TPass == /\ IsEvent("pass")
          /\ LET x == Ev.dir  f == Flow(Ev.dir, Ev.t) IN
             /\ Ev.t >= last[x] /\ Ev.n > 0
             /\ q' = [q EXCEPT ![x] = VQPass(@, f, Ev.n)]
+            /\ qr' = [qr EXCEPT ![x] = VQPass(@, f, Ev.n)]
+            /\ LitReport(x, VQPass(q[x], f, Ev.n))
             /\ dpre' = [dpre EXCEPT ![x] = IF bl[x] THEN DefBefore(d[x], f) ELSE 0]
             /\ d' = [d EXCEPT ![x] = IF bl[x] THEN DefPass(@, f, Ev.n) ELSE 0]
             /\ last' = [last EXCEPT ![x] = Ev.t]
@@ -77,7 +87,7 @@ TBacklogStart ==
          /\ IsEvent("backlog.start")
          /\ LET x == Ev.dir  f == Flow(Ev.dir, Ev.t) IN
             /\ Ev.t >= last[x] /\ ~bl[x]
-            /\ q' = [q EXCEPT ![x] = VQPass(@, f, 0)]
+            /\ q' = [q EXCEPT ![x] = VQPass(@, f, 0)] /\ qr' = [qr EXCEPT ![x] = VQPass(@, f, 0)]
             /\ d' = [d EXCEPT ![x] = 0] /\ dpre' = [dpre EXCEPT ![x] = 0]
             /\ last' = [last EXCEPT ![x] = Ev.t]
             /\ bl' = [bl EXCEPT ![x] = TRUE]
@@ -88,7 +98,7 @@ TBacklogEnd ==
          /\ IsEvent("backlog.end")
          /\ LET x == Ev.dir  f == Flow(Ev.dir, Ev.t) IN
             /\ Ev.t >= last[x] /\ bl[x]
-            /\ q' = [q EXCEPT ![x] = VQPass(@, f, 0)]
+            /\ q' = [q EXCEPT ![x] = VQPass(@, f, 0)] /\ qr' = [qr EXCEPT ![x] = VQPass(@, f, 0)]
             /\ dpre' = [dpre EXCEPT ![x] = DefBefore(d[x], f)]
             /\ d' = [d EXCEPT ![x] = 0]
             /\ last' = [last EXCEPT ![x] = Ev.t]
@@ -96,12 +106,14 @@ TBacklogEnd ==
             /\ cur' = x
          /\ UNCHANGED <<scn, cfg>>
 
-\* the user is activated anew (a fresh ActiveUser record with full buckets, life-cycle scenarios): the interval
-\* bound grants one more burst to every interval that contains the activation
+\* the user is activated anew (a fresh ActiveUser record, life-cycle scenarios).  The literal queue q takes no
+\* notice; qr forgives one burst, so that TUpper tells an excess that fresh buckets explain (the known
+\* defect D18, reported from the LITERAL_EXCEEDED lines) from one they do not (e.g. two valves alive at once)
 TActivate ==
          /\ IsEvent("activate")
          /\ \A x \in Dirs : Ev.t >= last[x]
-         /\ q' = [x \in Dirs |-> VQPass(q[x], Flow(x, Ev.t) + cfg[x].burst, 0)]
+         /\ q' = [x \in Dirs |-> VQPass(q[x], Flow(x, Ev.t), 0)]
+         /\ qr' = [x \in Dirs |-> VQPass(qr[x], Flow(x, Ev.t) + cfg[x].burst, 0)]
          /\ last' = [x \in Dirs |-> Ev.t]
          /\ cur' = "-"
          /\ UNCHANGED <<scn, cfg, d, dpre, bl>>
@@ -115,7 +127,8 @@ Gran(x) == cfg[x].burst \div 100
 
 \* C19 upper bound: every interval [t1,t2] carries at most rate*(t2-t1) + burst (+ one message in the
 \* low-rate scenarios where a single message is larger than the burst: relax > 0 only there)
-TUpper == \A x \in Dirs : q[x] <= cfg[x].burst + Gran(x) + cfg[x].relax
+\* (qr = q in every scenario without re-activations, i.e. everywhere outside the life-cycle stage)
+TUpper == \A x \in Dirs : qr[x] <= cfg[x].burst + Gran(x) + cfg[x].relax
 
 \* C19 lower bound: in a backlogged phase no interval falls short of rate*t by more than one message
 TNotStarved == \A x \in Dirs : dpre[x] <= cfg[x].maxmsg + Gran(x)
